@@ -132,4 +132,19 @@ Theorem C05_fresh_separators_suffice_partial : forall t, aligned t -> isorted (f
   Cursor.wf (to_ctree t) = true.
 Proof. exact ff_cursor_wf. Qed.
 Print Assumptions C05_fresh_separators_suffice_partial.
+
+(** end to end, with the one open obligation explicit: the committed tree meets Cursor.wf if it has no stale separator ... *)
+Theorem C05_committed_tree_is_cursor_wf_if_no_stale_separator_partial : forall ps fill fuel t order t' evs d,
+  wf d t -> (d < fuel)%nat -> closed false t -> NoDup (ids t) -> good order t ->
+  isorted (flat t) -> flat t <> [] ->
+  commit_tree ps fill fuel t order = Ok (t', evs) -> ff t' -> Cursor.wf (to_ctree t') = true.
+Proof. exact commit_tree_cursor_wf_if_ff. Qed.
+Print Assumptions C05_committed_tree_is_cursor_wf_if_no_stale_separator_partial.
+
+(** ... and unconditionally when the committed root is a leaf (how small buckets end up) *)
+Theorem C05_committed_leaf_root_is_cursor_wf : forall ps fill fuel t order t' evs,
+  aligned t -> isorted (flat t) -> commit_tree ps fill fuel t order = Ok (t', evs) ->
+  h_leaf (hd_of t') = true -> Cursor.wf (to_ctree t') = true.
+Proof. exact commit_tree_cursor_wf_leaf. Qed.
+Print Assumptions C05_committed_leaf_root_is_cursor_wf.
 End CommittedTrees.
